@@ -75,6 +75,26 @@ mod harnesses {
             p += 1;
         }
     }
+    /// thorough tier: the same bounded check on a wider domain (previous_count 0..=7 enumerated, limit 1..=8)
+    #[kani::proof]
+    #[kani::unwind(9)]
+    fn estimate_wait_positive_when_full_medium() {
+        use std::time::Duration;
+        let limit: usize = kani::any(); let current: usize = kani::any();
+        let ratio: f64 = kani::any();
+        kani::assume(ratio >= 0.0 && ratio <= 0.999_999);
+        kani::assume(limit >= 1 && limit <= 8 && current <= limit);
+        let mut p: usize = 0;
+        while p <= 7 {
+            let s = SlidingCounterStateV { limit_for_period: limit, bucket_duration: Duration::from_secs(1), previous_count: p, current_count: current };
+            let weighted = leaf_weighted_count(p, 1.0 - ratio, current);
+            if !(weighted < limit as f64) {
+                let w = s.estimate_wait_time(ratio);
+                assert!(w >= Duration::from_micros(1));
+            }
+            p += 1;
+        }
+    }
     /// C19: the three IEEE facts the chaos unit assumes about its comparison shims (bodies `a < b`, `a > 0.0`)
     #[kani::proof]
     fn chaos_float_facts() {
